@@ -235,6 +235,7 @@ def check_lex(text):
     except ECMASyntaxError:
         return None
     pos = 0
+    prev_real = None
     for t in toks:
         if t.type == 'AUTOSEMI':
             continue
@@ -253,11 +254,15 @@ def check_lex(text):
                 # numbers followed by identifier characters etc. are lexed token-by-token by calmjs; only punctuators must be longest
                 if kind == 'punct':
                     return 'punctuator %r at offset %d is not the longest match (%r)' % (t.value, t.lexpos, text[t.lexpos:e])
-        if t.type == 'ID' and t.value in Lexer.keywords_dict:
+        if t.type not in ('STRING', 'REGEX', 'LINE_COMMENT', 'BLOCK_COMMENT', 'LINE_TERMINATOR') and any(c in refscan.WHITESPACE + refscan.LINE_TERMINATORS for c in t.value):
+            return 'token %r (%s) contains white space: it is not one ES5 token' % (t.value, t.type)
+        if t.type == 'ID' and t.value in Lexer.keywords_dict and not (prev_real is not None and prev_real.type == 'PERIOD'):
             return 'keyword spelling %r classified as ID' % t.value
         if t.type in Lexer.keywords_dict.values() and Lexer.keywords_dict.get(t.value) != t.type:
             return 'token %r classified as keyword %s' % (t.value, t.type)
         pos = t.lexpos + len(t.value)
+        if t.type not in ('LINE_COMMENT', 'BLOCK_COMMENT', 'LINE_TERMINATOR'):
+            prev_real = t
     gap = text[pos:]
     if any(c not in refscan.WHITESPACE + refscan.LINE_TERMINATORS for c in gap):
         return 'trailing text %r dropped' % gap
@@ -386,7 +391,7 @@ def main():
     import unicodedata
     gapchars = set(lexmod_plain.Lexer.t_ignore) | {chr(c) for c in range(0x3100) if unicodedata.category(chr(c)) in ('Zs', 'Zl', 'Zp', 'Cf', 'Cc')} | {'\ufeff', '\u180e'}
     for c in sorted(gapchars):
-        strings += ['a' + c + 'b', c + 'a', 'a' + c, '1' + c + '+' + c + '2', 'a/*' + c + '*/' + c + 'b', "'" + c + "'" + c + 'b', 'a' + c + '\n' + c + 'b']
+        strings += ['a' + c + 'b', c + 'a', 'a' + c, 'var' + c + 'x', 'a' + c + 'in' + c + 'b', '1' + c + '+' + c + '2', 'a/*' + c + '*/' + c + 'b', "'" + c + "'" + c + 'b', 'a' + c + '\n' + c + 'b']
     strings = list(dict.fromkeys(strings))
     chunks = [strings[i::128] for i in range(128)]
     sres = common.pmap(_sjob, chunks)
